@@ -124,7 +124,14 @@ class SurfaceConnectionVertices(SurfaceConnection):
             # extract basis edge
             vert_u = self.mesh.connectivity.vertex_to_vertices(u)[::-1]
             E = self.mesh.vertices[vert_u[0]] - P
-            X = Vec.normalized(E - np.dot(E,N)*N) # project on tangent plane
+            X = E - np.dot(E,N)*N # project on tangent plane
+            k_ref = 0
+            while geom.norm(X) < 1e-6*geom.norm(E) and k_ref+1 < len(vert_u):
+                # the edge is along the normal and has no direction in the tangent plane: take the next one of the ring
+                k_ref += 1
+                E = self.mesh.vertices[vert_u[k_ref]] - P
+                X = E - np.dot(E,N)*N
+            X = Vec.normalized(X)
             self._baseX[u] = X
             self._baseY[u] = geom.cross(N,X)
 
@@ -145,6 +152,12 @@ class SurfaceConnectionVertices(SurfaceConnection):
                     self._transport[(u,v)] = ang * 2 * np.pi / self.total_angle[u]
                     c = self.mesh.connectivity.vertex_to_corner_in_face(u,T)
                     ang += self.angles[c]
+
+            if k_ref>0:
+                # X was built from another edge than the reference one: turn it back so that it is the direction of angle 0
+                X = geom.rotate_around_axis(self._baseX[u], N, -self._transport[(u,vert_u[k_ref])])
+                self._baseX[u] = X
+                self._baseY[u] = geom.cross(N,X)
 
 class FlatConnectionVertices(SurfaceConnection):
     """
